@@ -183,6 +183,123 @@ macro_rules! c09_bodies {
 c09_bodies!(BE, strict_step_be);
 c09_bodies!(LE, strict_step_le);
 
+// ---------------------------------------------------------------- unbuffered reader over a strict backend
+
+pub type UbStrict<'a, E> = BitReader<E, MemWordReader<u64, &'a [u64], false>>;
+pub type UbZext<'a, E> = BitReader<E, MemWordReader<u64, &'a [u64], true>>;
+
+macro_rules! c09_ub_bodies {
+    ($e:ty, $step:ident) => {
+        pub fn $step<S: Src, const K: usize, const OP: u8>(s: &mut S)
+        where
+            for<'a> UbStrict<'a, $e>: BitRead<$e, Error = std::io::Error, PeekWord = u32>,
+            for<'a> UbZext<'a, $e>: BitRead<$e, Error = Infallible, PeekWord = u32> + BitSeek<Error = Infallible>,
+        {
+            let data = any_array::<u64, S, K>(s);
+            let len = s.usize_in(0, K);
+            let p = s.usize_in(0, len * 64);
+            let avail = len * 64 - p;
+            let stream_bit = |j: usize| -> bool {
+                let a = p + j;
+                if a / 64 < len {
+                    img_bit::<$e, u64>(&data, a)
+                } else {
+                    false
+                }
+            };
+            let m = s.usize_in(0, 64);
+            let j = s.usize();
+            let mut r: UbStrict<'_, $e> = BitReader::<$e, _>::new(MemWordReader::new_strict(&data[..len]));
+            r.set_bit_pos(p as u64).unwrap();
+            let mut z: UbZext<'_, $e> = BitReader::<$e, _>::new(MemWordReader::new(&data[..len]));
+            z.set_bit_pos(p as u64).unwrap();
+            match OP {
+                OP_READ_BITS => {
+                    s.assume(m == 0 || j < m);
+                    let got = okv(r.read_bits(m));
+                    if m <= avail {
+                        assert!(got.is_some(), "read of bits lying entirely within the data failed");
+                        if m > 0 {
+                            assert_eq!(field_bit::<$e>(got.unwrap(), m, j), stream_bit(j), "read_bits value differs from the stream");
+                        }
+                    } else {
+                        assert!(got.is_none(), "read_bits returned a value needing bits beyond the end of a strict stream");
+                    }
+                    crate::cover!(s, m > 0 && m == avail, "read ending exactly at the end of data");
+                    crate::cover!(s, m > avail, "read beyond the end");
+                }
+                OP_PEEK => {
+                    let mm = 1 + m % 32;
+                    s.assume(j < mm);
+                    let got = okv(r.peek_bits(mm));
+                    if mm <= avail {
+                        assert!(got.is_some(), "peek of bits lying entirely within the data failed");
+                        let v = got.unwrap() as u64;
+                        assert_eq!(field_bit::<$e>(v, mm, j), stream_bit(j), "peek_bits value differs from the stream");
+                    } else {
+                        assert!(got.is_none(), "peek_bits returned a value needing bits beyond the end of a strict stream");
+                    }
+                    crate::cover!(s, mm == avail, "peek ending exactly at the end of data");
+                    crate::cover!(s, mm > avail && avail > 0, "peek crossing the end");
+                }
+                OP_READ_UNARY => {
+                    let found = s.bool();
+                    if found {
+                        let zpos = s.usize_in(0, 3 * 64);
+                        s.assume(zpos < avail && stream_bit(zpos));
+                        let zv = z.read_unary().unwrap();
+                        s.assume(zv as usize == zpos);
+                        let got = okv(r.read_unary());
+                        assert!(got == Some(zpos as u64), "unary code lying entirely within the data not decoded");
+                        crate::cover!(s, zpos + 1 == avail, "unary code ending exactly at the end of data");
+                    } else {
+                        // every available bit is zero
+                        s.assume(avail <= 128);
+                        let w0 = p / 64;
+                        let o0 = p % 64;
+                        let mask0 = if <$e as En>::BE { u64::MAX >> o0 } else { u64::MAX << o0 };
+                        let sv = |w: u64| if <$e as En>::BE { w.swap_bytes() } else { w };
+                        s.assume(w0 >= len || (sv(data[w0]) & mask0) == 0 || false);
+                        s.assume(w0 + 1 >= len || data[w0 + 1] == 0);
+                        s.assume(w0 + 2 >= len || data[w0 + 2] == 0);
+                        let got = okv(r.read_unary());
+                        assert!(got.is_none(), "read_unary fabricated a terminating one beyond the end of a strict stream");
+                        crate::cover!(s, avail > 0, "zeros up to the end");
+                    }
+                }
+                _ => {
+                    let zm = if OP == OP_DELTA_TT { 5 } else if OP == OP_ZETA3_T { 10 } else { 12 };
+                    let zz = s.usize_in(0, zm);
+                    if OP == OP_OMEGA {
+                        let n1 = 2 + stream_bit(1) as usize;
+                        s.assume(!stream_bit(0) || !stream_bit(2) || !stream_bit(3 + n1));
+                    } else {
+                        s.assume(stream_bit(zz));
+                    }
+                    let (v0, got) = match OP {
+                        OP_GAMMA_T => (z.read_gamma_param::<false>().unwrap(), okv(r.read_gamma_param::<true>())),
+                        OP_DELTA_TT => (z.read_delta_param::<false, false>().unwrap(), okv(r.read_delta_param::<true, true>())),
+                        OP_ZETA3_T => (z.read_zeta_param(3).unwrap(), okv(r.read_zeta3_param::<true>())),
+                        OP_GAMMA => (z.read_gamma_param::<false>().unwrap(), okv(r.read_gamma_param::<false>())),
+                        _ => (z.read_omega().unwrap(), okv(r.read_omega())),
+                    };
+                    let c0 = (z.bit_pos().unwrap() - p as u64) as usize;
+                    if c0 <= avail {
+                        assert!(got == Some(v0), "code lying entirely within the data not decoded (tail lost)");
+                    } else {
+                        assert!(got.is_none(), "code read returned a value needing bits beyond the end of a strict stream");
+                    }
+                    crate::cover!(s, c0 == avail && c0 > 0, "code ending exactly at the end of data");
+                    crate::cover!(s, c0 > avail, "code running past the end");
+                }
+            }
+            core::mem::forget(r);
+        }
+    };
+}
+c09_ub_bodies!(BE, ub_strict_step_be);
+c09_ub_bodies!(LE, ub_strict_step_le);
+
 crate::harnesses! {
     #[kani::stub(alloc::fmt::format, stub_format)]
     #[kani::stub(std::string::ToString::to_string, stub_to_string)]
@@ -480,4 +597,68 @@ crate::harnesses! {
     #[kani::stub(std::string::ToString::to_string, stub_to_string)]
     #[kani::unwind(7)]
     c09_vbyte_u64_le (thorough, "BufBitReader<LE, strict MemWordReader<u64>>, K=3", "data truncated after any number of words 0..=K, any Inv_r state; op vbyte: Ok with the right value iff the bits it needs lie within the data") => strict_step_le::<u64, _, 3, {OP_VBYTE}>;
+    #[kani::stub(alloc::fmt::format, stub_format)]
+    #[kani::stub(std::string::ToString::to_string, stub_to_string)]
+    #[kani::unwind(7)]
+    c09_ub_read_bits_be (quick, "BitReader<BE> (unbuffered) over a strict MemWordReader<u64>, K=3", "data truncated after any number of words 0..=3, any bit position; op read_bits: Ok with the right value iff the bits it needs lie within the data") => ub_strict_step_be::<_, 3, {OP_READ_BITS}>;
+    #[kani::stub(alloc::fmt::format, stub_format)]
+    #[kani::stub(std::string::ToString::to_string, stub_to_string)]
+    #[kani::unwind(7)]
+    c09_ub_read_bits_le (quick, "BitReader<LE> (unbuffered) over a strict MemWordReader<u64>, K=3", "data truncated after any number of words 0..=3, any bit position; op read_bits: Ok with the right value iff the bits it needs lie within the data") => ub_strict_step_le::<_, 3, {OP_READ_BITS}>;
+    #[kani::stub(alloc::fmt::format, stub_format)]
+    #[kani::stub(std::string::ToString::to_string, stub_to_string)]
+    #[kani::unwind(7)]
+    c09_ub_read_unary_be (quick, "BitReader<BE> (unbuffered) over a strict MemWordReader<u64>, K=3", "data truncated after any number of words 0..=3, any bit position; op read_unary: Ok with the right value iff the bits it needs lie within the data") => ub_strict_step_be::<_, 3, {OP_READ_UNARY}>;
+    #[kani::stub(alloc::fmt::format, stub_format)]
+    #[kani::stub(std::string::ToString::to_string, stub_to_string)]
+    #[kani::unwind(7)]
+    c09_ub_read_unary_le (quick, "BitReader<LE> (unbuffered) over a strict MemWordReader<u64>, K=3", "data truncated after any number of words 0..=3, any bit position; op read_unary: Ok with the right value iff the bits it needs lie within the data") => ub_strict_step_le::<_, 3, {OP_READ_UNARY}>;
+    #[kani::stub(alloc::fmt::format, stub_format)]
+    #[kani::stub(std::string::ToString::to_string, stub_to_string)]
+    #[kani::unwind(7)]
+    c09_ub_peek_be (quick, "BitReader<BE> (unbuffered) over a strict MemWordReader<u64>, K=3", "data truncated after any number of words 0..=3, any bit position; op peek: Ok with the right value iff the bits it needs lie within the data") => ub_strict_step_be::<_, 3, {OP_PEEK}>;
+    #[kani::stub(alloc::fmt::format, stub_format)]
+    #[kani::stub(std::string::ToString::to_string, stub_to_string)]
+    #[kani::unwind(7)]
+    c09_ub_peek_le (quick, "BitReader<LE> (unbuffered) over a strict MemWordReader<u64>, K=3", "data truncated after any number of words 0..=3, any bit position; op peek: Ok with the right value iff the bits it needs lie within the data") => ub_strict_step_le::<_, 3, {OP_PEEK}>;
+    #[kani::stub(alloc::fmt::format, stub_format)]
+    #[kani::stub(std::string::ToString::to_string, stub_to_string)]
+    #[kani::unwind(7)]
+    c09_ub_gamma_tab_be (quick, "BitReader<BE> (unbuffered) over a strict MemWordReader<u64>, K=3", "data truncated after any number of words 0..=3, any bit position; op gamma_tab: Ok with the right value iff the bits it needs lie within the data") => ub_strict_step_be::<_, 3, {OP_GAMMA_T}>;
+    #[kani::stub(alloc::fmt::format, stub_format)]
+    #[kani::stub(std::string::ToString::to_string, stub_to_string)]
+    #[kani::unwind(7)]
+    c09_ub_gamma_tab_le (quick, "BitReader<LE> (unbuffered) over a strict MemWordReader<u64>, K=3", "data truncated after any number of words 0..=3, any bit position; op gamma_tab: Ok with the right value iff the bits it needs lie within the data") => ub_strict_step_le::<_, 3, {OP_GAMMA_T}>;
+    #[kani::stub(alloc::fmt::format, stub_format)]
+    #[kani::stub(std::string::ToString::to_string, stub_to_string)]
+    #[kani::unwind(7)]
+    c09_ub_delta_tab_be (thorough, "BitReader<BE> (unbuffered) over a strict MemWordReader<u64>, K=3", "data truncated after any number of words 0..=3, any bit position; op delta_tab: Ok with the right value iff the bits it needs lie within the data") => ub_strict_step_be::<_, 3, {OP_DELTA_TT}>;
+    #[kani::stub(alloc::fmt::format, stub_format)]
+    #[kani::stub(std::string::ToString::to_string, stub_to_string)]
+    #[kani::unwind(7)]
+    c09_ub_delta_tab_le (thorough, "BitReader<LE> (unbuffered) over a strict MemWordReader<u64>, K=3", "data truncated after any number of words 0..=3, any bit position; op delta_tab: Ok with the right value iff the bits it needs lie within the data") => ub_strict_step_le::<_, 3, {OP_DELTA_TT}>;
+    #[kani::stub(alloc::fmt::format, stub_format)]
+    #[kani::stub(std::string::ToString::to_string, stub_to_string)]
+    #[kani::unwind(7)]
+    c09_ub_zeta3_tab_be (thorough, "BitReader<BE> (unbuffered) over a strict MemWordReader<u64>, K=3", "data truncated after any number of words 0..=3, any bit position; op zeta3_tab: Ok with the right value iff the bits it needs lie within the data") => ub_strict_step_be::<_, 3, {OP_ZETA3_T}>;
+    #[kani::stub(alloc::fmt::format, stub_format)]
+    #[kani::stub(std::string::ToString::to_string, stub_to_string)]
+    #[kani::unwind(7)]
+    c09_ub_zeta3_tab_le (quick, "BitReader<LE> (unbuffered) over a strict MemWordReader<u64>, K=3", "data truncated after any number of words 0..=3, any bit position; op zeta3_tab: Ok with the right value iff the bits it needs lie within the data") => ub_strict_step_le::<_, 3, {OP_ZETA3_T}>;
+    #[kani::stub(alloc::fmt::format, stub_format)]
+    #[kani::stub(std::string::ToString::to_string, stub_to_string)]
+    #[kani::unwind(7)]
+    c09_ub_omega_be (quick, "BitReader<BE> (unbuffered) over a strict MemWordReader<u64>, K=3", "data truncated after any number of words 0..=3, any bit position; op omega: Ok with the right value iff the bits it needs lie within the data") => ub_strict_step_be::<_, 3, {OP_OMEGA}>;
+    #[kani::stub(alloc::fmt::format, stub_format)]
+    #[kani::stub(std::string::ToString::to_string, stub_to_string)]
+    #[kani::unwind(7)]
+    c09_ub_omega_le (thorough, "BitReader<LE> (unbuffered) over a strict MemWordReader<u64>, K=3", "data truncated after any number of words 0..=3, any bit position; op omega: Ok with the right value iff the bits it needs lie within the data") => ub_strict_step_le::<_, 3, {OP_OMEGA}>;
+    #[kani::stub(alloc::fmt::format, stub_format)]
+    #[kani::stub(std::string::ToString::to_string, stub_to_string)]
+    #[kani::unwind(7)]
+    c09_ub_gamma_be (thorough, "BitReader<BE> (unbuffered) over a strict MemWordReader<u64>, K=3", "data truncated after any number of words 0..=3, any bit position; op gamma: Ok with the right value iff the bits it needs lie within the data") => ub_strict_step_be::<_, 3, {OP_GAMMA}>;
+    #[kani::stub(alloc::fmt::format, stub_format)]
+    #[kani::stub(std::string::ToString::to_string, stub_to_string)]
+    #[kani::unwind(7)]
+    c09_ub_gamma_le (thorough, "BitReader<LE> (unbuffered) over a strict MemWordReader<u64>, K=3", "data truncated after any number of words 0..=3, any bit position; op gamma: Ok with the right value iff the bits it needs lie within the data") => ub_strict_step_le::<_, 3, {OP_GAMMA}>;
 }
